@@ -58,11 +58,14 @@ def expected_volume(code, size, stacks, np):
 def write_slices(dirpath, stack, fmt, np):
     """stack [file, row, col, ch] -> image files with sortable names."""
     from PIL import Image
-    os.makedirs(dirpath)
+    os.makedirs(dirpath, exist_ok=True)
     for k in range(stack.shape[0]):
         img = stack[k]
         name = os.path.join(dirpath, f"s{k:04d}.{fmt}")
-        if img.shape[2] == 1:
+        if img.shape[2] == 1 and img.dtype not in (np.uint8, np.uint16):
+            import tifffile
+            tifffile.imwrite(name, np.ascontiguousarray(img[:, :, 0]))
+        elif img.shape[2] == 1:
             a = img[:, :, 0]
             if a.dtype == np.uint8:
                 Image.fromarray(a, mode="L").save(name)
@@ -70,6 +73,51 @@ def write_slices(dirpath, stack, fmt, np):
                 Image.fromarray(a.astype("<u2"), mode="I;16").save(name)
         else:
             Image.fromarray(img.astype(np.uint8), mode="RGB").save(name)
+
+
+def convert_values(arr, out_dt, np):
+    """Value conversion the property of C11 prescribes (round to nearest, ties
+    to even, saturate at the bounds of an integer output type; nearest float32
+    for a float output), computed value by value on Python numbers."""
+    out_t = np.dtype(out_dt)
+    if arr.dtype == out_t:
+        return arr
+    flat = arr.ravel().tolist()
+    if np.issubdtype(out_t, np.integer):
+        ii = np.iinfo(out_t)
+        res = [min(max(round(v), int(ii.min)), int(ii.max)) for v in flat]
+    else:
+        res = flat
+    return np.array(res, dtype=out_t).reshape(arr.shape)
+
+
+# pixel type of the slices -> data_type values of the dataset it is converted into, with the value stream
+PIXEL_CASES = [
+    ("int16", "uint16", "nonneg"), ("int16", "uint16", "signed"), ("int16", "uint8", "signed"),
+    ("float32", "uint32", "float"), ("float32", "uint16", "float"), ("float32", "float32", "float"),
+    ("uint32", "float32", "small"), ("uint32", "uint32", "big"), ("uint16", "float32", "nonneg"),
+    ("uint16", "uint32", "nonneg"), ("uint8", "float32", "nonneg"), ("int8", "uint8", "signed"),
+    ("int32", "uint32", "signed"), ("int32", "uint64", "signed"), ("uint32", "uint64", "big"),
+    ("uint16", "uint8", "nonneg"), ("float64", "float32", "float"), ("int16", "float32", "signed"),
+]
+
+
+def pixel_values(rng, dt, stream, count, np):
+    info = np.iinfo(dt) if np.issubdtype(np.dtype(dt), np.integer) else None
+    out = []
+    for _ in range(count):
+        if stream == "float":
+            out.append(rng.choice([0.0, 0.5, 1.5, 2.5, -0.5, -3.25, 254.5, 255.5, 65535.5, 65536.0, 4294967295.0,
+                                   5e9, float(rng.randrange(0, 70000)), rng.uniform(-10, 70000)]))
+        elif stream == "small":
+            out.append(rng.choice([0, 1, 255, 65535, 2 ** 24, rng.randrange(0, 2 ** 24)]))
+        elif stream == "big":
+            out.append(rng.choice([0, 2 ** 31, 2 ** 32 - 1, rng.randrange(0, 2 ** 32)]))
+        elif stream == "signed":
+            out.append(rng.choice([int(info.min), -1, 0, 1, int(info.max), rng.randrange(int(info.min), int(info.max) + 1)]))
+        else:
+            out.append(rng.choice([0, 1, int(info.max), rng.randrange(0, int(info.max) + 1)]))
+    return out
 
 
 def make_info(dest, size, chunk, nch, dtype, sharding=None):
@@ -205,7 +253,8 @@ def run(R):
             elif rel == "nonmult":
                 d = chunk[za] = rng.randrange(2, 6)
                 size[za] = d * rng.choice([1, 2]) + rng.randrange(1, d)
-            layout = rng.choice(["grey8", "grey8", "grey16", "rgb", "two-dirs", "grey8-tif", "grey16-tif"])
+            layout = rng.choice(["grey8", "grey8", "grey16", "rgb", "two-dirs", "three-dirs", "grey8-tif",
+                                 "grey16-tif"])
             storage = rng.choice(["deep-gz", "deep-gz", "flat", "plain", "flat-plain"])
             jobs.append(dict(code=code, size=size, chunk=chunk, rel=rel, layout=layout, storage=storage,
                              sharded=False, case_code=code))
@@ -218,6 +267,16 @@ def run(R):
     for spelled in ["ras", "Lpi", "RAX", "RA", "RASS", "RRS"]:
         extra.append(dict(code=spelled.upper(), size=[2, 3, 2], chunk=[2, 2, 2], rel="any", layout="grey8",
                           storage="deep-gz", sharded=False, case_code=spelled))
+    # slices whose pixel type differs from the dataset's data_type (kind and/or width)
+    for k in range(len(PIXEL_CASES) * (2 if quick else 8)):
+        src_dt, dst_dt, stream = PIXEL_CASES[k % len(PIXEL_CASES)]
+        jobs.append(dict(code=rng.choice(ALL_CODES), size=[rng.randrange(1, 5) for _ in range(3)],
+                         chunk=[rng.randrange(1, 4) for _ in range(3)], rel="any",
+                         layout=rng.choice(["pixel", "pixel", "pixel-two-dirs"]), storage=rng.choice(["deep-gz", "plain"]),
+                         sharded=False, case_code=None, pixel=(src_dt, dst_dt, stream)))
+    for j in jobs:
+        if j["case_code"] is None:
+            j["case_code"] = j["code"]
     sub_idx = set(rng.sample(range(len(jobs)), n_sub))
     jobs = [dict(j, sub=(i in sub_idx)) for i, j in enumerate(jobs)] + [dict(j, sub=True) for j in extra]
 
@@ -230,22 +289,37 @@ def run(R):
         else:
             w, h, n = size[0], size[1], size[2]
         lay = j["layout"]
-        dt = "uint16" if "16" in lay else "uint8"
-        hi = 65536 if dt == "uint16" else 256
-        ndirs = 2 if lay == "two-dirs" else 1
+        pixel = j.get("pixel")
+        ndirs = 3 if lay == "three-dirs" else 2 if lay in ("two-dirs", "pixel-two-dirs") else 1
         kch = 3 if lay == "rgb" else 1
-        stacks = [np.array([[[[rng.randrange(hi) for _ in range(kch)] for _ in range(w)] for _ in range(h)]
-                            for _ in range(n)], dtype=dt).reshape(n, h, w, kch) for _ in range(ndirs)]
-        fmt = "tif" if lay.endswith("tif") else "png"
+        if pixel:
+            dt = pixel[0]
+            stacks = [np.array(pixel_values(rng, dt, pixel[2], n * h * w, np), dtype=dt).reshape(n, h, w, 1)
+                      for _ in range(ndirs)]
+            fmt = "tif"
+        else:
+            dt = "uint16" if "16" in lay else "uint8"
+            hi = 65536 if dt == "uint16" else 256
+            stacks = [np.array([[[[rng.randrange(hi) for _ in range(kch)] for _ in range(w)] for _ in range(h)]
+                                for _ in range(n)], dtype=dt).reshape(n, h, w, kch) for _ in range(ndirs)]
+            fmt = "tif" if lay.endswith("tif") else "png"
+        # directory names in random order: the channel order is the ORDER GIVEN on the command line,
+        # which must not coincide with the lexicographic order of the paths
+        tags = rng.sample(["aa", "b1", "m_ch", "zz", "Z0", "k9"], ndirs)
         dirs = []
         for di, st in enumerate(stacks):
-            dpath = os.path.join(R.tmp, f"in{idx}_{di}")
+            dpath = os.path.join(R.tmp, f"in{idx}", f"{tags[di]}_{di}")
             write_slices(dpath, st, fmt, np)
             dirs.append(dpath)
+        if ndirs > 1:
+            R.count("dir-order:" + ("lexicographic" if dirs == sorted(dirs) else "not-lexicographic"))
         nch = ndirs * kch
         out_dt = dt
-        if rng.random() < 0.1:
+        if pixel:
+            out_dt = pixel[1]
+        elif rng.random() < 0.1:
             out_dt = rng.choice(["uint16", "float32"]) if dt == "uint8" else rng.choice(["uint8", "uint32"])
+        R.count(f"pixel:{dt}->{out_dt}" + (f":{pixel[2]}" if pixel else ""))
         dest = os.path.join(R.tmp, f"out{idx}")
         sharding = None
         if j["sharded"]:
@@ -317,15 +391,7 @@ def run(R):
             R.disagree("chunks on disk vs chunks written by the model", case, sorted(coords_present)[:6],
                        sorted(m_coords)[:6])
         mvol, mpresent = model_volume(m_read, size, nch, stacks, dt, np)
-        if out_dt != dt:
-            info_t = np.dtype(out_dt)
-            if np.issubdtype(info_t, np.integer):
-                ii = np.iinfo(info_t)
-                mconv = np.clip(mvol.astype(np.int64), ii.min, ii.max).astype(info_t)
-            else:
-                mconv = mvol.astype(info_t)
-        else:
-            mconv = mvol
+        mconv = convert_values(mvol, out_dt, np)
         pres4 = np.broadcast_to(present, mpresent.shape)
         if not np.array_equal(pres4, mpresent) or not np.array_equal(np.where(pres4, vol, 0), np.where(mpresent, mconv, 0)):
             R.disagree("converted voxels vs model read_back", case,
@@ -336,13 +402,7 @@ def run(R):
         if not dpres.all() or not np.array_equal(dvol, expect):
             R.violation("extracted `designated` disagrees with the letter-meaning index map (self-check)",
                         case, {})
-        if out_dt != dt:
-            info_t = np.dtype(out_dt)
-            if np.issubdtype(info_t, np.integer):
-                ii = np.iinfo(info_t)
-                expect = np.clip(expect.astype(np.int64), ii.min, ii.max).astype(info_t)
-            else:
-                expect = expect.astype(info_t)
+        expect = convert_values(expect, out_dt, np)
         if not m_wf:
             R.disagree("c15_wf classification (every generated job is well formed)", case, True, m_wf)
         ok = impl == ["ok", []] and present.all() and np.array_equal(vol, expect)
